@@ -147,10 +147,16 @@ RowSelect(r) ==                                 \* l.956-1188
         /\ tableList' = IF hdr THEN r.list ELSE tableList
         /\ Adv(r) /\ UNCHANGED <<cfgv, stack, meta, outcome>>
 
+ExternalTypes == {"xml-external", "csv-external"}
 RowQuestion(r) ==                               \* l.752-760, 798-817, 1190-1374
   /\ outcome.status = "open" /\ r.k = "q"
   /\ IF r.type = "calculate" /\ ~r.hascalc /\ r.dyn \in {"none", "static"} THEN Fail("calc_missing")
      ELSE IF NameErr(r) # "" THEN Fail(NameErr(r))
+     ELSE IF r.type \in ExternalTypes
+       \* an external-instance row is an element of the tree (its name counts among its siblings) that contributes a secondary
+       \* instance only: no node in the primary instance, no bind, no control (kind "ext")
+       THEN /\ nodes' = Append(nodes, Node(Append(CurPath, EffName(r)), "ext", "ext", rowno, r.type, FALSE, FALSE, EffLname(r), <<>>))
+            /\ Adv(r) /\ UNCHANGED <<cfgv, stack, tableList, meta, outcome>>
      ELSE /\ nodes' = Append(nodes, UNode(Append(CurPath, EffName(r)), "q", IF r.hasname THEN "" ELSE "note",
                                          rowno, r.type, HasControl(r), r.lh \/ r.media, EffLname(r),
                                          WithMedia(r.type, r.cattrs), r.refs))
@@ -183,7 +189,8 @@ UnknownType(ns) == \E i \in 1..Len(ns) : ns[i].kind = "q" /\ ns[i].gen \notin {"
 NoLabel(ns) == \E i \in 1..Len(ns) : ns[i].kind = "q" /\ ns[i].hc /\ ~ns[i].lh /\ TypeKnown(ns[i].type)
 
 \* a ${name} that names no element, or more than one, cannot be resolved  (survey.py _var_repl_function)
-NameCount(ns, x) == Cardinality({i \in 1..Len(ns) : Last(ns[i].p) = x})
+\* (an external-instance row has no node to point at: its name is not a referable name)
+NameCount(ns, x) == Cardinality({i \in 1..Len(ns) : Last(ns[i].p) = x /\ ns[i].kind # "ext"})
 BadRef(ns) == \E i \in 1..Len(ns) : \E k \in 1..Len(ns[i].refs) : NameCount(ns, ns[i].refs[k]) # 1
 
 \* identifiers a diagnosis of each tree-level problem may name (C17 "a message identifying the problem"):
@@ -220,7 +227,8 @@ Finish ==
 
 (* --------------------------------------------- what the finished tree prescribes (C04 / C02) *)
 \* Expected primary instance below the root, non-template part, preorder.
-ExpInstance == [i \in 1..Len(nodes) |-> nodes[i].p]
+InstNodes == SelectSeq(nodes, LAMBDA n : n.kind # "ext")
+ExpInstance == [i \in 1..Len(InstNodes) |-> InstNodes[i].p]
 RepeatPaths == {nodes[i].p : i \in {j \in 1..Len(nodes) : nodes[j].kind = "repeat"}}
 SubtreeOf(p) == SelectSeq(ExpInstance, LAMBDA q : IsPrefix(p, q))
 \* Nodes that came from a user row (the one-to-one clause) vs documented generated kinds
